@@ -304,24 +304,26 @@ Definition change_denoms (l add rem : list Z) : list Z :=
   fold_left (fun acc d => sdel d acc) rem (fold_left (fun acc d => sins d acc) add l).
 
 (* environment: BeginBlockLaunchConsumers / BeginBlockRemoveConsumers *)
+(* LaunchConsumer succeeded: phase LAUNCHED; [auto] = validators opted in by the launch (Top N) *)
+Definition launched_rec (cr : cons) (auto : list Z) : cons :=
+  set_opted (set_phase cr 3) (fold_left (fun acc v => sins v acc) auto (c_opted cr)).
+(* LaunchConsumer failed: spawn time reset to zero, phase back to REGISTERED *)
+Definition unlaunched_rec (cr : cons) : cons := set_spawn (set_phase cr 1) false.
+(* DeleteConsumerChain: key assignments, commission rates, opted-in are deleted; owner, phase and
+   power-shaping parameters are kept *)
+Definition deleted_rec (cr : cons) : cons := mkC 5 (c_owner cr) (c_topn cr) (c_spawn cr) [] [] [] [].
+
 Definition env_step (s : state) (e : envop) : state :=
   match e with
   | ELaunch c ok auto =>
     match get_cons s c with
     | Some cr =>
-      if c_phase cr =? 2 then
-        if ok then put_cons s c (set_opted (set_phase cr 3) (fold_left (fun acc v => sins v acc) auto (c_opted cr)))
-        else put_cons s c (set_spawn (set_phase cr 1) false)          (* spawn time reset, back to REGISTERED *)
-      else s
+      if c_phase cr =? 2 then put_cons s c (if ok then launched_rec cr auto else unlaunched_rec cr) else s
     | None => s
     end
   | EDelete c =>
     match get_cons s c with
-    | Some cr =>
-      (* DeleteConsumerChain: key assignments, commission rates, opted-in are deleted; owner, phase and
-         power-shaping parameters are kept *)
-      if c_phase cr =? 4 then put_cons s c (mkC 5 (c_owner cr) (c_topn cr) (c_spawn cr) [] [] [] [])
-      else s
+    | Some cr => if c_phase cr =? 4 then put_cons s c (deleted_rec cr) else s
     | None => s
     end
   end.
